@@ -1,7 +1,111 @@
 import AmqModel.Model.ConnRun
-namespace AmqModel.Props.C09
-open AmqModel.Conn
+import AmqModel.Props.C04
+import AmqModel.Props.C20
+import AmqModel.Props.C10
+import AmqModel.Lemmas.ConnC04
+/-!
+# C09 — a server-initiated channel close affects that channel only
 
-theorem placeholder : (Conn.init 1 1).dead = false := rfl
+Property theorems only; helper lemmas (the explicit post-state `closedChannel` of a fully reported
+close, the consumer-queue bookkeeping of `notifyConsumers`, the additional reachable-state
+invariant `Inv2` "slot keys are open ids of the allocator") live in
+`AmqModel/Lemmas/ConnC04.lean`.
+-/
+namespace AmqModel.Props.C09
+open AmqModel.Conn AmqModel.Collector
+
+/-- THE CLOSE IS LOCAL. Processing the server's Channel.Close(n, code, text) in the steady state,
+    when the handle is there to be told (reply queue has room, consumers' receivers alive):
+    * slot `n` is gone, every other slot is exactly as it was;
+    * the owner's reply queue got `ServerClosedChannel n code text` at its end and its I/O-thread
+      end is dropped (later submissions fail, later receives drain then disconnect);
+    * Channel.CloseOk on `n` is queued (unless writes are sealed); the connection stays steady;
+    * no error is returned.
+
+    (No `Nodup` hypothesis on the consumers' queue ids is needed here: `sendCons` / `dropConsTx`
+    never change any queue's `rxAlive`.) -/
+theorem chan_close_local (c : Conn) (n code : Nat) (text dc df : Bytes) (slot : Slot)
+    (hs : c.st = .steady) (hn : n ≠ 0) (hslot : lookupN n c.slots = some slot)
+    (halive : (getLink c slot.lid).clientAlive = true) (hroom : (getLink c slot.lid).replies.length < 2)
+    (hcons : ∀ p ∈ slot.consumers, ∃ q, lookupN p.2 c.cqs = some q ∧ q.rxAlive = true) :
+    let r := process c (.method n 20 40 [.nat code, .bytes text]) dc df
+    r.2 = none ∧ r.1.st = .steady ∧
+    lookupN n r.1.slots = none ∧ (∀ m, m ≠ n → lookupN m r.1.slots = lookupN m c.slots) ∧
+    (getLink r.1 slot.lid).replies = (getLink c slot.lid).replies ++ [.err (.serverClosedChannel n code text)] ∧
+    (getLink r.1 slot.lid).ioAlive = false ∧
+    r.1.out = (if c.sealed then c.out else c.out ++ channelCloseOk n) := by
+  intro r
+  have e : r = (closedChannel c n code text slot, none) :=
+    process_close_ok hs hn code text dc df hslot halive hroom hcons
+  obtain ⟨h1, h2, _, h4, h5, _⟩ := closedChannel_spec c n code text slot
+  rw [e]
+  refine ⟨rfl, h1.trans hs, ?_, fun m hm => ?_, ?_, ?_, h4⟩
+  · show lookupN n (closedChannel c n code text slot).slots = none
+    rw [h2, lookupN_eraseN_self]
+  · show lookupN m (closedChannel c n code text slot).slots = _
+    rw [h2, lookupN_eraseN_ne (Ne.symm hm)]
+  · show (getLink (closedChannel c n code text slot) slot.lid).replies = _
+    rw [h5]
+  · show (getLink (closedChannel c n code text slot) slot.lid).ioAlive = false
+    rw [h5]
+
+/-- Every consumer of the closed channel receives ServerClosedChannel as its last message and its
+    queue is disconnected afterwards. -/
+theorem chan_close_notifies_consumers (c : Conn) (n code : Nat) (text dc df : Bytes) (slot : Slot)
+    (hs : c.st = .steady) (hn : n ≠ 0) (hslot : lookupN n c.slots = some slot)
+    (halive : (getLink c slot.lid).clientAlive = true) (hroom : (getLink c slot.lid).replies.length < 2)
+    (hcons : ∀ p ∈ slot.consumers, ∃ q, lookupN p.2 c.cqs = some q ∧ q.rxAlive = true)
+    (hnodup : (slot.consumers.map (·.2)).Nodup) :
+    ∀ p ∈ slot.consumers, ∀ q, lookupN p.2 c.cqs = some q →
+      lookupN p.2 (process c (.method n 20 40 [.nat code, .bytes text]) dc df).1.cqs =
+        some { q with msgs := q.msgs ++ [.serverClosedChannel n code text], txAlive := false } := by
+  intro p hp q hq
+  rw [process_close_ok hs hn code text dc df hslot halive hroom hcons]
+  show lookupN p.2 (closedChannel c n code text slot).cqs = _
+  rw [closedChannel_cqs c n code text slot hcons hnodup p.2 (List.mem_map_of_mem hp), hq]
+  rfl
+
+/-- Other channels' links (FIFOs, reply queues) are untouched by the close of channel `n`. -/
+theorem chan_close_other_links (c : Conn) (n code : Nat) (text dc df : Bytes) (slot : Slot) (lid : Nat)
+    (hs : c.st = .steady) (hn : n ≠ 0) (hslot : lookupN n c.slots = some slot) (hl : lid ≠ slot.lid) :
+    getLink (process c (.method n 20 40 [.nat code, .bytes text]) dc df).1 lid = getLink c lid := by
+  rw [process_close_eq_pcm hs hn code text dc df hslot]
+  exact (pcm_close_frame code text dc hslot).2.2 lid hl
+
+/-- The id becomes available again: from a reachable state, after the close, an explicit open of
+    `n` succeeds.  (Uses the additional reachable-state invariant `Inv2` — every slot key is an
+    open id of the allocator — proved in `Lemmas/ConnC04.lean`, next to `Inv`.) -/
+theorem id_available_again (cm b : Nat) (ops : List Op) (hl : ∀ o ∈ ops, ApiLegal o) (n code : Nat) (text dc df : Bytes)
+    (slot : Slot) (hs : (run (init cm b) ops).st = .steady) (hslot : lookupN n (run (init cm b) ops).slots = some slot) :
+    (Slots.insertSome (process (run (init cm b) ops) (.method n 20 40 [.nat code, .bytes text]) dc df).1.alloc n).2 = .ok n :=
+  reopen_after_close (inv_reachable cm b ops hl) (inv2_reachable cm b ops) hs code text dc df hslot
+
+/-- A wake-up for the closed channel that was already pending is ignored, and a later submission
+    through the old handle is refused (restated from C20). -/
+theorem stale_wakeup_and_late_submission (c : Conn) (n : Nat) (label : Label) (lid : Nat) (m : Msg)
+    (hn : n ≠ 0) (h : lookupN n c.slots = none)
+    (hh : lookupS label c.handles = some lid) (hd : (getLink c lid).ioAlive = false) :
+    handleEvent c (.chan n) = (c, [], none) ∧ (clientSend c label m).2 = .disconnected :=
+  ⟨C20.stale_channel_event_is_noop c n hn h, (C20.request_after_close_fails c label lid m hh hd).1⟩
+
+set_option linter.unusedVariables false in
+/-- A reopened id starts from a fresh slot: idle collector, no consumers, no listeners, a new link.
+
+    ADDED HYPOTHESIS (allowed by the NOTE of the task): `hfresh : lookupN c.nextLid c.links = none`
+    — the link id about to be handed out is not in use; without it `getLink` would find the older
+    entry.  (`hd` is not needed.) -/
+theorem reopened_slot_is_fresh (c : Conn) (n : Nat) (hs : c.st = .steady) (hd : c.dead = false)
+    (hreq : c.allocReq = [some n]) (hrep : c.allocRep = []) (h0 : ch0Alive c = true)
+    (hok : (Slots.insertSome c.alloc n).2 = .ok n)
+    (hfresh : lookupN c.nextLid c.links = none) :
+    let c' := (handleEvent c .alloc).1
+    lookupN n c'.slots = some { lid := c.nextLid } ∧ c'.allocRep = [.ok c.nextLid] ∧
+    getLink c' c.nextLid = { chan := n, src := if c.registered then ({} : Src).register else (({} : Src).register).deregister } := by
+  intro c'
+  have e : c' = _ := alloc_fresh hs hreq hrep h0 hok
+  rw [e]
+  refine ⟨?_, rfl, getLink_append_fresh hfresh _ rfl⟩
+  show lookupN n (insertSorted n { lid := c.nextLid } c.slots) = _
+  rw [lookupN_insertSorted, if_pos rfl]
 
 end AmqModel.Props.C09
